@@ -16,7 +16,8 @@ ID = 'C04'
 RULE = ('the C01 table generator (dims 1..6, thorough 1..12; all value kinds, id alphabets, metadata kinds, layout recipes incl. '
         'in-place stored zeros / reversed segments in CSR and CSC, compress on/off) plus empty-axis tables 0xM, Nx0, 0x1, 1x0, '
         '0x0, all-zero tables, `biom convert --to-hdf5` through its helper AND through the real click command (JSON / TSV input, --table-type, '
-        '--collapsed-*, --process-obs-metadata, -m), load-and-write-again histories (also from a BIOM 2.0 file) and shipped files; the raw '
+        '--collapsed-*, --process-obs-metadata, -m), load-and-write-again histories (also from a BIOM 2.0 file), shipped files, an earlier to_hdf5 with custom format_fs, ids handed '
+        'over as object array / pandas Index / Series / tuple / np.str_ list, and a stream of tables the writer must refuse; the raw '
         'h5py tree of every file is compared with the model tree and decoded by the independent spec decoder; every case '
         'writes and decodes a file (all-zero and empty-axis tables are the boundary cases the property names); distinct by case hash')
 TRUSTED = ['hand-written model coq/Model/Hdf5.v + coq/Model/Sparse.v tied to biom/table.py by this correspondence run '
@@ -306,7 +307,7 @@ def _check(s, part, label=''):
     for ax, ids, md in (('observation', s['oids'], s.get('omd')), ('sample', s['sids'], s.get('smd'))):
         if seen['ids'].get(ax) != list(ids):
             fails.append(label + '%s/ids holds %s, the axis ids are %s' % (ax, seen['ids'].get(ax), ids))
-        cats = set(md[0]) if md and any(md) else set()
+        cats = {k for row in (md or []) for k in (row or {})}
         got = seen['md_entries'].get(ax) or {}
         if {c.replace('@@SLASH@@', '/') for c in got} != cats:
             fails.append(label + '%s/metadata has datasets %s for categories %s' % (ax, sorted(got), sorted(cats)))
@@ -320,9 +321,15 @@ def oracle(case, obs):
     if 'build' in obs:
         return ['could not build the source table: %s' % (obs['build'],)]
     if obs.get('write') != 'ok':
+        if case.get('expect') == 'refuse':
+            return []           # refused, as it must be (which exception: compared with the model)
         return ['writing a table of the property domain failed: %s' % (obs.get('write'),)]
     s = _source(case)
     fails = _check(s, obs)
+    if case.get('expect') == 'refuse':
+        fails = ['written although the format cannot represent the table (%s), and the file does not decode to it: %s'
+                 % (case.get('refusal'), f) for f in fails] or \
+                ['written although the model of the writer refuses it (%s); the file happens to decode' % case.get('refusal')]
     if case.get('history'):
         later = obs.get('later') or {}
         lab = 'file written from the table loaded back%s: ' % (' from a BIOM 2.0 file' if case['history'] == 'reload20' else '')
@@ -352,6 +359,8 @@ def gen(rng, tier):
         yield hist(U.rand_case(rng, md, empty_axis=True))
     for i in range(40 * k):
         yield hist(U.rand_case(rng, md, all_zero=True))
+    for i in range(40 * k):            # what the format cannot represent has to be refused
+        yield _refusal_case(rng, md, REFUSALS[i % len(REFUSALS)])
     for i in range(40 * k):            # the real command line (click wrapper), in process
         yield _cli_case(rng, md)
     for i in range(40 * k):
@@ -366,7 +375,7 @@ def _cli_case(rng, max_dim):
     """a `biom convert ... --to-hdf5` command line: input JSON or TSV, table type, collapsed axes,
     observation-metadata processing, sample mapping file"""
     c = U.rand_case(rng, max_dim, writer='convert_cli', empty_axis=False)
-    for k in ('gen2', 'np_md'):
+    for k in ('gen2', 'np_md', 'prelude'):
         c.pop(k, None)
     s = c['spec']
     s['layout'] = ['dense']
@@ -415,11 +424,60 @@ def _cli_case(rng, max_dim):
     return c
 
 
+REFUSALS = ['first-fewer', 'first-more', 'disjoint', 'only-later-ids', 'only-first-id', 'some-missing',
+            'flat-taxonomy-and-none', 'text-under-list-category']
+
+
+def _refusal_case(rng, max_dim, kind):
+    """a table the format cannot represent: categories differ between the ids of an axis, metadata only on some
+    ids, flat taxonomy text next to None, text under a list category.  The writer has to refuse it (the model
+    says which exception); a file that is written all the same has to decode to the table."""
+    c = U.rand_case(rng, max_dim)
+    for k in ('gen2', 'np_md', 'history'):
+        c.pop(k, None)
+    s = c['spec']
+    s['omd'] = s['smd'] = None
+    ax = rng.choice(['omd', 'smd'])
+    n = len(s['oids'] if ax == 'omd' else s['sids'])
+    if n < 2:
+        s['oids'], s['sids'], s['mat'], s['layout'] = ['o1', 'o2'], ['s1', 's2'], [[1.0, 0.0], [0.0, 2.0]], ['dense']
+        n = 2
+    val = lambda: rng.choice(['x', 'y z', 3, 0.5, True])
+    j = rng.randrange(1, n)
+    if kind == 'first-fewer':
+        rows = [{'a': 'x'} for _ in range(n)]
+        rows[j]['b'] = val()
+        if rng.random() < 0.5:
+            rows = [dict(r, b=val()) if i else r for i, r in enumerate(rows)]      # every later id has the extra one
+    elif kind == 'first-more':
+        rows = [{'a': 'x', 'b': 'y'}] + [{'a': 'x'} for _ in range(n - 1)]
+    elif kind == 'disjoint':
+        rows = [{'a': 1}] + [{'b': 2} for _ in range(n - 1)]
+    elif kind == 'only-later-ids':
+        rows = [None] + [{'a': val()} for _ in range(n - 1)]
+    elif kind == 'only-first-id':
+        rows = [{'a': val()}] + [None for _ in range(n - 1)]
+    elif kind == 'some-missing':
+        rows = [{'a': 'x'} for _ in range(n)]
+        rows[j] = rng.choice([None, {}])
+    elif kind == 'flat-taxonomy-and-none':
+        rows = [{'taxonomy': 'k__A; p__B'} for _ in range(n)]
+        rows[rng.randrange(n)] = {'taxonomy': None}
+    else:
+        rows = [{rng.choice(['collapsed_ids', 'KEGG_Pathways']): 'x'} for _ in range(n)]
+    s[ax] = rows
+    c['expect'] = 'refuse'
+    c['refusal'] = kind
+    return c
+
+
 def nontrivial(case):
     return True        # every case is a file written by the library and decoded by the independent decoder
 
 
 def classify(case):
+    if case.get('expect') == 'refuse':
+        return ['kind:refusal', 'refusal:%s' % case.get('refusal')]
     if case.get('kind') == 'fixture':
         return ['kind:fixture', 'theorem-domain:%s' % ('inside' if _in_domain(case) else 'outside')]
     if case.get('writer') == 'convert_cli':
@@ -429,10 +487,13 @@ def classify(case):
                                         'cli-process-obs-metadata:%s' % cli.get('process'), 'cli-mapping:%s' % bool(cli.get('mapping')),
                                         'theorem-domain:%s' % ('inside' if _in_domain(case) else 'outside')]
     return U.classify_case(case) + [U.layout_tag(_state(case)), 'theorem-domain:%s' % ('inside' if _in_domain(case) else 'outside'),
-                                    'history:%s' % (case.get('history') or 'write')]
+                                    'history:%s' % (case.get('history') or 'write'), 'ids-given-as:%s' % (case.get('ids_as') or 'list'),
+                                    'earlier-write-with-format_fs:%s' % bool(case.get('prelude'))]
 
 
 def shrink(case):
+    if case.get('expect') == 'refuse':
+        return
     if case.get('kind') == 'fixture':
         return
     if case.get('writer') == 'convert_cli':
